@@ -5,7 +5,7 @@ From Verif Require Import lib.Wire c03.Int64 c03.Model c03.Spec c03.Witness
      c03.Proofs_Int64 c03.Proofs_Base c03.Proofs_Limiter c03.Proofs_Reach c03.Proofs_Link
      c03.Proofs_OpsMem c03.Proofs_Hist c03.Proofs_Mon c03.Proofs_Link2 c03.Proofs_Transfer c03.Proofs_OpsRepar
      c03.Proofs_SetPeer c03.Proofs_Hist2 c03.Proofs_Mon2 c03.Proofs_Keys c03.Proofs_Refs c03.Proofs_RefInv c03.Proofs_GC
-     c03.Proofs_Prio c03.Proofs_Cap c03.Proofs_CapInv c03.Proofs_Full.
+     c03.Proofs_Prio c03.Proofs_Cap c03.Proofs_CapInv c03.Proofs_Just c03.Proofs_Just2 c03.Proofs_Full.
 Import ListNotations.
 Local Open Scope Z_scope.
 
@@ -223,16 +223,27 @@ Theorem c03_subnet_cap : forall c ops i inb usefd ip, disciplined c (ops ++ [OOp
 Proof. exact subnet_cap_full. Qed.
 Print Assumptions c03_subnet_cap.
 
-(* THE monitor that is run on the implementation's traces accepts every trace of
-   the model: answer legality, choice among the candidate successors, usage ==
-   sum of holders, signs, limits, the priority threshold after every accepted
-   ReserveMemory (ck_prio) and the per-subnet cap against the open connections
-   of the history (ck_cap).  The one remaining switch - the justification of
-   resource-limit refusals by a scope that would exceed (ck_just) - is off; it is
-   covered by the correspondence only *)
+(* an operation that answers the resource-limit sentinel was refused by a scope of
+   its constraining chain that would exceed its limit, judged from the usage
+   before the operation and the configured limit (for OpenConnection with an
+   allow-listed endpoint: in the standard chain AND in the allow-listed chain;
+   for a SetPeer that transfers: system, transient or the peer scope) *)
+Theorem c03_limit_refusal_justified : forall c st a m o,
+  cfg_ok c -> InvL c st a -> (forall x, ostat m x = use_of (scopes st) x) ->
+  match o with OGC => True | _ => wf_op2 c st a o end ->
+  snd (step c st o) = 1 -> refusal_justified c a m o = true.
+Proof. exact just_step. Qed.
+Print Assumptions c03_limit_refusal_justified.
+
+(* THE monitor that is run on the implementation's traces - the whole of it:
+   answer legality, choice among the candidate successors, usage == sum of
+   holders, signs, limits, the priority threshold after every accepted
+   ReserveMemory, the justification of every resource-limit refusal and the
+   per-subnet cap against the open connections of the history - accepts every
+   trace of the model *)
 Theorem c03_trace_holds : forall c ops, disciplined c ops ->
-  mon_run_gen (mkChecks true false true) c astate0 [] 0 (model_trace c (init_state c) ops) = [].
-Proof. exact monitor_accepts_prio_cap. Qed.
+  mon_run c astate0 [] 0 (model_trace c (init_state c) ops) = [].
+Proof. exact monitor_accepts_full. Qed.
 Print Assumptions c03_trace_holds.
 
 (* the hypothesis is satisfiable: a history through every operation incl. gc with
@@ -242,11 +253,8 @@ Example disciplined_nonvacuous :
   disciplined tour_cfg tour_ops /\ disciplined retry_cfg retry_ops /\ disciplined gc_cfg gc_ops.
 Proof. unfold disciplined. vm_compute. repeat split; reflexivity. Qed.
 
-(* ---- regression: histories that refuted the full statement before the repairs ----------- *)
-Definition full_statement : Prop :=
-  forall c ops, config_wf c = true ->
-    callers_run c astate0 [] 0 (model_trace c (init_state c) ops) = None ->
-    mon_run c astate0 [] 0 (model_trace c (init_state c) ops) = [].
+(* ---- regression: histories that refuted the full statement before the repairs (it is
+   c03_trace_holds now) ------------------------------------------------------------------------ *)
 
 (* fixed in /repo by 4443cff, 540d954 and e9a9a54 (model re-transcribed): gc()
    no longer closes a peer scope that holds a View reservation; the allow-list
